@@ -74,3 +74,7 @@ chk("C19", "E5-grid", "exploration",
     "A real API server (services/api/grpc with the repository's CA) on loopback; the full grid of all 16 RPC methods x credential kinds (plaintext, no client certificate, self-signed, other authority with and without its CA in the chain, each valid client, a valid peer) x wallets; unauthenticated callers must obtain nothing and change nothing (state digest over all records, locks, accounts, sessions); valid callers are served according to the permissions of the certificate's subject name.",
     "Trusted: Go crypto/tls and x509; loopback TCP.",
     "exhaustive method x credential grid over real TLS with state-digest oracle", "5/C19")
+chk("C03", "E4-crash", "fault_enumeration",
+    "Short histories are run by a child process on the real signer stack. (1) The child is killed with SIGKILL at every hook point of the run. (2) The child runs under strace; every system-call boundary on the storage directory is a power-loss point and every directory image allowed by the stated persistence model (in-order metadata, O_DSYNC writes durable at return and torn while in flight, other writes volatile until fsync) is materialised. Every killed directory and every image is reopened by the real code and probed with every request that conflicts with a request that had reached signing; the simulator is validated against the directory the child actually left behind.",
+    "Trusted: persistence model M-ord; badger's recovery; strace's record of the system calls; media corruption and reordered metadata are out of scope.",
+    "exhaustive crash-point x lost-write-pattern enumeration with real recovery", "5/C03, Appendix C")
